@@ -51,7 +51,7 @@ def unhexList : List Char → Option Bytes
       pure (UInt8.ofNat (x * 16 + y) :: r)
   | _ => none
 
-def unhex (s : String) : Option Bytes := unhexList s.toList
+def unhex (s : String) : Option Bytes := if s == "-" then some [] else unhexList s.toList
 
 def name (bs : Bytes) : String := "h:" ++ hex bs
 def optName : Option Bytes → String
